@@ -6,6 +6,7 @@ import (
 	"encoding/gob"
 	"errors"
 	"fmt"
+	"os"
 	"sort"
 	"sync"
 
@@ -37,6 +38,14 @@ func OpenIndexFromBoltDatabase(db *bbolt.DB, opts ...IndexOption) (*Index, error
 	idx.db = db
 
 	err := db.View(func(tx *bbolt.Tx) error {
+		// A file that ends before the pages its header accounts for is what an
+		// interrupted writer can leave behind. bbolt reads pages through a memory
+		// map, and touching a page beyond the end of the file kills the process
+		// with a bus error, so such a file has to be rejected before any lookup.
+		if fi, err := os.Stat(db.Path()); err == nil && fi.Size() < tx.Size() {
+			return fmt.Errorf("not a complete updog index: file is truncated (%d of %d bytes)", fi.Size(), tx.Size())
+		}
+
 		bucket := tx.Bucket([]byte("data"))
 		if bucket == nil {
 			return errors.New("not an updog index: data bucket not found")
